@@ -3,28 +3,45 @@
 #include <stdlib.h>
 #include <string.h>
 
+/* overridden by engine/heapcount.c when linked */
+__attribute__((weak)) void hc_pause(int delta) { (void)delta; }
+
+int vp_render_live; /* replay mode: print as we go so that a crash does not lose the rendering */
+
 void vp_render(struct vp_report *rep, const char *fmt, ...)
 {
     if (rep == NULL) return;
+    if (vp_render_live) {
+        va_list ap;
+        va_start(ap, fmt);
+        hc_pause(1);
+        vfprintf(stdout, fmt, ap);
+        fflush(stdout);
+        hc_pause(-1);
+        va_end(ap);
+        return;
+    }
+    hc_pause(1);
     char buf[1024];
     va_list ap;
     va_start(ap, fmt);
     int n = vsnprintf(buf, sizeof(buf), fmt, ap);
     va_end(ap);
-    if (n < 0) return;
+    if (n < 0) { hc_pause(-1); return; }
     if ((size_t)n >= sizeof(buf)) n = sizeof(buf) - 1;
     if (rep->render_len + n + 1 > rep->render_cap) {
         size_t cap = rep->render_cap ? rep->render_cap * 2 : 4096;
         while (cap < rep->render_len + n + 1) cap *= 2;
-        if (cap > (1u << 20)) return; /* cap renderings at 1 MiB */
+        if (cap > (1u << 20)) { hc_pause(-1); return; } /* cap renderings at 1 MiB */
         char *p = realloc(rep->render, cap);
-        if (!p) return;
+        if (!p) { hc_pause(-1); return; }
         rep->render = p;
         rep->render_cap = cap;
     }
     memcpy(rep->render + rep->render_len, buf, n);
     rep->render_len += n;
     rep->render[rep->render_len] = '\0';
+    hc_pause(-1);
 }
 
 int vp_fail(struct vp_report *rep, const char *key, const char *fmt, ...)
